@@ -4,6 +4,7 @@ use crate::attr::*;
 use crate::core::*;
 use crate::gen::*;
 use crate::ops::*;
+use crate::refmodel::*;
 use crate::runner::*;
 use std::collections::BTreeMap;
 
@@ -311,6 +312,187 @@ pub fn c11() -> TreeProp {
   }
 }
 
+// ---------------------------------------------------------------- C07
+pub fn c07() -> TreeProp {
+  TreeProp {
+    id: "C07",
+    gen: Box::new(|rng, thorough| {
+      let cfg = GenCfg { max_repl: 3, ..GenCfg::wild(if thorough { 4 } else { 3 }) };
+      let t = TreeGen::new().tree(rng, &cfg, cfg.depth, false);
+      let len = ref_buf(&t).len();
+      let mut ops = vec![Op::Src, Op::Buffer, Op::Size, Op::Rope];
+      let maxk = if thorough { len + 1 } else { (len + 1).min(40) };
+      if len + 1 <= maxk { for k in 0..=len { ops.push(Op::Writer(k)); } } else { for _ in 0..maxk { ops.push(Op::Writer(rng.below(len + 2))); } ops.push(Op::Writer(len)); }
+      single(t, ops, "C07")
+    }),
+    oracle: Box::new(|c, outs| {
+      let mut v = vec![];
+      panics(c, outs, &mut v);
+      let t = &c.trees[0];
+      let (Some(src), Some(buf)) = (outs[0].text(), outs[1].text()) else { return v };
+      if let Out::Num(n) = &outs[2] { if *n as usize != buf.len() { v.push(finding("size", format!("size() {n} but buffer().len() {}", buf.len()))); } }
+      if let Out::Rope(Some(r)) = &outs[3] { if r != src { v.push(finding("rope", format!("rope() renders {:?}, source() {:?}", s(r), s(src)))); } }
+      if *src != ref_src(t) { v.push(finding("source-concat", format!("source() {:?}, children/reference give {:?}", s(src), s(&ref_src(t))))); }
+      if *buf != ref_buf(t) { v.push(finding("buffer-concat", format!("buffer() {:?}, children/reference give {:?}", buf, ref_buf(t)))); }
+      if all_utf8_leaves(t) && buf != src { v.push(finding("buffer-utf8", "buffer() is not the bytes of source()".into())); }
+      for ((_, op), o) in c.script.iter().zip(outs) {
+        if let (Op::Writer(k), Out::Writer(ok, w)) = (op, o) {
+          if *k >= buf.len() { if !*ok || w != buf { v.push(finding("to-writer", format!("writer with budget {k}: ok={ok}, wrote {} of {} bytes", w.len(), buf.len()))); } }
+          else { if *ok { v.push(finding("to-writer-error", format!("writer failing after {k} bytes: to_writer returned Ok"))); } if !buf.starts_with(w) { v.push(finding("to-writer-prefix", format!("writer failing after {k} bytes: wrote {:?}, not a prefix of buffer()", w))); } }
+        }
+      }
+      v
+    }),
+    project: Box::new(|_, outs| outs.iter().map(|o| format!("{:?}", o)).collect()),
+    nontrivial: Box::new(|c, _| c.trees[0].has(&|x| matches!(x, T::Concat(cs) if cs.iter().any(|c| matches!(c.1, T::Concat(_)))) || matches!(x, T::Replace(i, _) if i.has(&|y| matches!(y, T::RawB(_) | T::RawBuf(_)))))),
+    stats: Box::new(kind_stats),
+    known: Box::new(no_known),
+    corpus: vec![],
+  }
+}
+
+// ---------------------------------------------------------------- C13
+fn per_pos_attr(src: &Bytes, m: &Option<SMapT>) -> Vec<Attr> { match m { Some(m) => attr_map(m, src).iter().map(no_content).collect(), None => vec![None; src.len()] } }
+fn line_attr(m: &Option<SMapT>) -> BTreeMap<u32, (Bytes, u32)> { match m { Some(m) => attr_map_lines(m), None => BTreeMap::new() } }
+
+fn c13_oracle(c: &Case, outs: &[Out]) -> Vec<Finding> {
+  let mut v = vec![];
+  panics(c, outs, &mut v);
+  let get = |ti: usize, op: &Op| c.script.iter().zip(outs).find(|((i, o), _)| *i == ti && o == op).map(|(_, o)| o);
+  let (Some(Out::Text(src0)), Some(Out::Map(m1)), Some(Out::Map(m0))) = (get(0, &Op::Src), get(0, &Op::Map(true)), get(0, &Op::Map(false))) else { return v };
+  for ti in 1..c.trees.len() {
+    let (Some(Out::Text(src)), Some(Out::Map(n1)), Some(Out::Map(n0))) = (get(ti, &Op::Src), get(ti, &Op::Map(true)), get(ti, &Op::Map(false))) else { continue };
+    if src != src0 { v.push(finding("text", format!("variant {ti}: source() {:?} vs {:?}", s(src), s(src0)))); continue }
+    let (a, b) = (per_pos_attr(src0, m1), per_pos_attr(src, n1));
+    if let Some(i) = (0..src0.len()).find(|i| a[*i] != b[*i]) { v.push(finding("attribution", format!("variant {ti} byte {i}: reference {} variant {}", show_attr(&a[i]), show_attr(&b[i])))); }
+    if line_attr(m0) != line_attr(n0) {
+      // only lines of the text count
+      let e = end_pos(src0); let nl = if e.1 == 0 { e.0 - 1 } else { e.0 };
+      let (x, y) = (line_attr(m0), line_attr(n0));
+      if let Some(l) = (1..=nl).find(|l| x.get(l) != y.get(l)) { v.push(finding("attribution-lines", format!("variant {ti} line {l}: reference {:?} variant {:?}", x.get(&l), y.get(&l)))); }
+    }
+  }
+  v
+}
+
+pub fn c13() -> TreeProp {
+  TreeProp {
+    id: "C13",
+    gen: Box::new(|rng, thorough| {
+      let cfg = ascii_cfg(if thorough { 3 } else { 2 });
+      let mut g = TreeGen::new();
+      let a = g.tree(rng, &cfg, cfg.depth, false); let b = g.tree(rng, &cfg, cfg.depth, false); let cc = g.tree(rng, &cfg, cfg.depth, false);
+      let f = |t: &T| (false, t.clone());
+      let (trees, note) = if rng.chance(2) {
+        (vec![
+          T::Concat(vec![f(&a), f(&b), f(&cc)]),
+          T::Concat(vec![(true, T::Concat(vec![f(&a), f(&b)])), f(&cc)]),
+          T::Concat(vec![(false, T::Concat(vec![f(&a), f(&b)])), f(&cc)]),
+          T::Concat(vec![f(&a), (true, T::Concat(vec![f(&b), f(&cc)]))]),
+          T::Concat(vec![f(&a), (false, T::Concat(vec![f(&b), (false, T::Concat(vec![f(&cc)]))]))]),
+          T::Concat(vec![(false, T::Raw(String::new())), f(&a), (false, T::Concat(vec![])), f(&b), (true, T::Concat(vec![])), f(&cc), (false, T::RawStr(String::new()))]),
+        ], "C13 grouping")
+      } else {
+        let len = src_of(&a).len() as u32;
+        let empties: Vec<ReplT> = (0..1 + rng.below(2)).map(|_| { let p = crate::gen::align(&src_of(&a), rng.below(len as usize + 2)) as u32; ReplT { start: p, end: p, content: String::new(), name: None, enforce: 1 } }).collect();
+        (vec![
+          a.clone(),
+          T::Concat(vec![f(&a)]),
+          T::Concat(vec![(false, T::Raw(String::new())), f(&a)]),
+          T::Replace(Box::new(a.clone()), vec![]),
+          T::Cached(900, Box::new(a.clone())),
+          T::Concat(vec![(true, T::Concat(vec![f(&a)]))]),
+          T::Replace(Box::new(a.clone()), empties),
+        ], "C13 wrappers")
+      };
+      let mut script = vec![];
+      for i in 0..trees.len() { script.push((i, Op::Src)); script.push((i, Op::Map(true))); script.push((i, Op::Map(false))); }
+      Case { trees, script, note: note.into() }
+    }),
+    oracle: Box::new(c13_oracle),
+    project: Box::new(|c, outs| {
+      let mut srcs: BTreeMap<usize, Bytes> = BTreeMap::new();
+      for ((i, op), o) in c.script.iter().zip(outs) { if let (Op::Src, Out::Text(t)) = (op, o) { srcs.insert(*i, t.clone()); } }
+      c.script.iter().zip(outs).map(|((i, op), o)| match (op, o) {
+        (_, Out::Text(t)) => format!("src {}", hx(t)),
+        (Op::Map(true), Out::Map(m)) => format!("attr {:?}", per_pos_attr(srcs.get(i).unwrap_or(&vec![]), m).iter().map(show_attr).collect::<Vec<_>>()),
+        (Op::Map(false), Out::Map(m)) => format!("attr-lines {:?}", line_attr(m)),
+        (_, Out::Panic(_)) => "panic".into(),
+        (_, o) => format!("{:?}", o) }).collect()
+    }),
+    nontrivial: Box::new(|_, outs| outs.iter().any(|o| matches!(o, Out::Map(Some(_))))),
+    stats: Box::new(kind_stats),
+    known: Box::new(|c, f, outs| {
+      // K2: a ReplaceSource with only empty replacements refines columns at its split points
+      if c.note.contains("wrappers") && f.clause == "attribution" && f.detail.starts_with("variant 6 ") {
+        let get = |ti: usize, op: &Op| c.script.iter().zip(outs).find(|((i, o), _)| *i == ti && o == op).map(|(_, o)| o);
+        if let (Some(Out::Text(src)), Some(Out::Map(m)), Some(Out::Map(n))) = (get(0, &Op::Src), get(0, &Op::Map(true)), get(6, &Op::Map(true))) {
+          let (a, b) = (per_pos_attr(src, m), per_pos_attr(src, n));
+          let refined = (0..src.len()).all(|i| a[i] == b[i] || match (&a[i], &b[i]) { (Some(x), Some(y)) => x.file == y.file && x.line == y.line && x.name == y.name && y.col > x.col, _ => false });
+          if refined { return Some("K2".into()) }
+        }
+      }
+      k5(c, f, &c13_oracle)
+    }),
+    corpus: vec![],
+  }
+}
+
+// ---------------------------------------------------------------- C10
+fn c10_obs(src: &Bytes, op: &Op, o: &Out) -> String {
+  match (op, o) {
+    (_, Out::Text(t)) => format!("text {}", hx(t)),
+    (_, Out::Num(n)) => format!("num {n}"),
+    (Op::Stream(true, _), Out::Stream(st)) => format!("stream info {}:{} text {} attr {:?}", st.line, st.col, hx(&stream_text(st)), attr_stream(st).iter().map(|a| show_attr(&no_content(a))).collect::<Vec<_>>()),
+    (Op::Stream(false, _), Out::Stream(st)) => format!("stream info {}:{} text {} attr-lines {:?}", st.line, st.col, hx(&stream_text(st)), attr_stream_lines(st)),
+    (Op::Map(true), Out::Map(m)) => format!("map attr {:?}", per_pos_attr(src, m).iter().map(show_attr).collect::<Vec<_>>()),
+    (Op::Map(false), Out::Map(m)) => { let e = end_pos(src); let nl = if e.1 == 0 { e.0 - 1 } else { e.0 }; let mut x = line_attr(m); x.retain(|l, _| *l <= nl); format!("map attr-lines {:?}", x) }
+    (_, Out::Panic(_)) => "panic".into(),
+    (_, o) => format!("{:?}", o),
+  }
+}
+fn c10_oracle(c: &Case, outs: &[Out]) -> Vec<Finding> {
+  let mut v = vec![];
+  panics(c, outs, &mut v);
+  let refi = c.trees.len() - 1;
+  let Some(src) = c.script.iter().zip(outs).find_map(|((i, op), o)| if *i == refi && *op == Op::Src { o.text() } else { None }) else { return v };
+  let mut want: BTreeMap<String, String> = BTreeMap::new();
+  for ((i, op), o) in c.script.iter().zip(outs) { if *i == refi { want.insert(format!("{:?}", op), c10_obs(src, op, o)); } }
+  for (k, ((i, op), o)) in c.script.iter().zip(outs).enumerate() {
+    if *i == refi { continue }
+    let got = c10_obs(src, op, o);
+    if let Some(w) = want.get(&format!("{:?}", op)) { if *w != got { v.push(finding("transparent", format!("step {k} A{i}.{:?}: cached answers {} — wrapped source answers {}", op, &got[..got.len().min(300)], &w[..w.len().min(300)]))); break; } }
+  }
+  v
+}
+pub fn c10() -> TreeProp {
+  TreeProp {
+    id: "C10",
+    gen: Box::new(|rng, thorough| {
+      let cfg = ascii_cfg(if thorough { 3 } else { 2 });
+      let x = TreeGen { next_cached: 0 }.tree(rng, &cfg, cfg.depth, false);
+      let w = T::Cached(1000, Box::new(x.clone()));
+      let all = [Op::Src, Op::Buffer, Op::Size, Op::Map(true), Op::Map(false), Op::Stream(true, false), Op::Stream(false, false)];
+      let n = 1 + rng.below(if thorough { 10 } else { 6 });
+      let mut script: Vec<(usize, Op)> = (0..n).map(|_| (rng.below(2), all[rng.below(all.len())].clone())).collect();
+      // observe everything once more at the end, on both handles
+      for op in &all { if rng.chance(2) { script.push((rng.below(2), op.clone())); } }
+      for op in &all { script.push((2, op.clone())); }
+      Case { trees: vec![w.clone(), w, x], script, note: "C10".into() }
+    }),
+    oracle: Box::new(c10_oracle),
+    project: Box::new(|c, outs| {
+      let refi = c.trees.len() - 1;
+      let src = c.script.iter().zip(outs).find_map(|((i, op), o)| if *i == refi && *op == Op::Src { o.text().cloned() } else { None }).unwrap_or_default();
+      c.script.iter().zip(outs).map(|((_, op), o)| c10_obs(&src, op, o)).collect()
+    }),
+    nontrivial: Box::new(|c, _| { let fills_map = c.script.iter().any(|(i, op)| *i < 2 && matches!(op, Op::Map(_))); let fills_stream = c.script.iter().any(|(i, op)| *i < 2 && matches!(op, Op::Stream(..))); fills_map && fills_stream }),
+    stats: Box::new(|c, o, d| { kind_stats(c, o, d); *d.entry(format!("history-len:{}", c.script.iter().filter(|(i, _)| *i < 2).count())).or_default() += 1; }),
+    known: Box::new(|c, f, _| k5(c, f, &c10_oracle)),
+    corpus: vec![],
+  }
+}
+
 pub fn by_id(id: &str) -> Option<TreeProp> {
-  match id { "C01" => Some(c01()), "C02" => Some(c02()), "C03" => Some(c03()), "C11" => Some(c11()), _ => None }
+  match id { "C01" => Some(c01()), "C02" => Some(c02()), "C03" => Some(c03()), "C11" => Some(c11()), "C07" => Some(c07()), "C13" => Some(c13()), "C10" => Some(c10()), _ => None }
 }
